@@ -48,7 +48,7 @@ def main():
     results = []
     try:
         for m in muts:
-            if 'patch' in m:
+            if 'patch' in m or 'patches' in m:
                 print('SKIP        %s %-28s (patch-based: exercised by `./check %s thorough`)' % (m['prop'], m['id'], m['prop']))
                 continue
             path = os.path.join(repo, m['file'])
